@@ -314,7 +314,7 @@ def _tol(case, pscale):
     """(rtol-like factor) absolute tolerance on the complex kernel."""
     if case["precision"] == "float64":
         return 2e-13 * (1.0 + pscale)
-    return 3e-5 * (1.0 + pscale)
+    return 4e-5 * (1.0 + pscale)
 
 
 def _points(case, amax):
@@ -413,6 +413,12 @@ def _apply(ctx, case, obj, coeffs, lam, tol):
     extra = 0.0 if case["precision"] == "float64" else 3e-5
     ctx.close(got, want, "apply-kernel" + ("-f32" if extra else ""), rtol=0, atol=tol * 2 + extra + 1e-11, scale=1.0)
     ctx.monitor("apply-runs")
+
+
+def setup(ctx):
+    # import outside the per-case watchdog: an interrupted import would poison every later case
+    import abtem  # noqa: F401
+    from abtem import transfer  # noqa: F401
 
 
 def check(ctx, case):
